@@ -248,3 +248,12 @@ package remedies
 //@   ensures[other-queues-untouched] seq: forall(k, queue.QueueKey, k != queue.QueueKey{scopedRemedy.Remedy.Name, queue.Strategy{scopedRemedy.Remedy.Config.StrategyBasedQueue.AllowedRequestCount, scopedRemedy.Remedy.Config.StrategyBasedQueue.WindowSizeInSeconds * 1000000000}} ==> (in(k, plugin.queues) <==> old(in(k, plugin.queues))))
 //@   ensures[configured-ttl-and-size] gEnqDone && scopedRemedy.Remedy.Config.StrategyBasedQueue.TTLSeconds >= 0.0 ==> real(gEnqTTL) <= 1000000000.0 * real(scopedRemedy.Remedy.Config.StrategyBasedQueue.TTLSeconds) && real(gEnqTTL) > 1000000000.0 * (real(scopedRemedy.Remedy.Config.StrategyBasedQueue.TTLSeconds) - 1.0) && gEnqSize == scopedRemedy.Remedy.Config.StrategyBasedQueue.QueueSize
 //@   ensures[own-request-and-priority] gEnqDone ==> gEnqReq != nil && gEnqReq.ID == onRequest.ID && gEnqReq.priority == priority
+
+// C17 (and every remedy that answers a request itself): the "429 Too many requests" early response carries a header map of
+// ITS OWN. The response-side remedies write into the header map of an early response (the retry remedy puts
+// x-lunar-retry-after there); a map shared between responses would carry one sequence's retry request over to the next.
+//@ func plainTextTooManyRequestsAction
+//@   prop C17, C09
+//@   modifies nothing
+//@   allocates map
+//@   ensures[a-header-map-of-its-own] result.Headers != nil && !old(allocated(result.Headers)) && result.Status == statusCode
